@@ -665,10 +665,19 @@ impl<'a> Model<'a> {
 
         let months_abs = months.unsigned_abs();
 
-        let native_date = if months > 0 {
-            date + Months::new(months_abs)
+        let native_date = match if months > 0 {
+            date.checked_add_months(Months::new(months_abs))
         } else {
-            date - Months::new(months_abs)
+            date.checked_sub_months(Months::new(months_abs))
+        } {
+            Some(d) => d,
+            None => {
+                return CalcResult::Error {
+                    error: Error::NUM,
+                    origin: cell,
+                    message: "Out of range parameters for date".to_string(),
+                }
+            }
         };
 
         // Instead of calculating the end of month we compute the first day of the following month
@@ -821,10 +830,19 @@ impl<'a> Model<'a> {
 
         let months_abs = months.unsigned_abs();
 
-        let native_date = if months > 0 {
-            date + Months::new(months_abs)
+        let native_date = match if months > 0 {
+            date.checked_add_months(Months::new(months_abs))
         } else {
-            date - Months::new(months_abs)
+            date.checked_sub_months(Months::new(months_abs))
+        } {
+            Some(d) => d,
+            None => {
+                return CalcResult::Error {
+                    error: Error::NUM,
+                    origin: cell,
+                    message: "Out of range parameters for date".to_string(),
+                }
+            }
         };
 
         let serial_number = native_date.num_days_from_ce() - EXCEL_DATE_BASE;
